@@ -502,6 +502,92 @@ def run_hierarchies(cases, batch=100):
     return verdicts, other
 
 
+# ---------------------------------------------------------------------------
+# return covariance through every KIND of callable on the accepted side: the runtime object
+# goes through arg_spec; the oracle CALLS it and tests membership of the result
+
+RETURN_KINDS_SRC = """
+import functools, typing
+def plain(x: int) -> int: return 0
+def plain_bool(x: int) -> bool: return True
+def plain_str(x: int) -> str: return ""
+async def async_ann(x: int) -> int: return 0
+async def async_unann(x: int): return 0
+def gen_ann(x: int) -> typing.Iterator[int]: yield 0
+async def agen_ann(x: int) -> typing.AsyncIterator[int]: yield 0
+class K:
+    def __init__(self, x: int) -> None: pass
+class CI:
+    def __call__(self, x: int) -> int: return 0
+callable_instance = CI()
+class M:
+    def m(self, x: int) -> int: return 0
+    @staticmethod
+    def s(x: int) -> str: return ""
+    @classmethod
+    def c(cls, x: int) -> int: return 0
+    async def am(self, x: int): return 0
+bound_method = M().m
+static_method = M.s
+class_method = M.c
+bound_async_unann = M().am
+def deco(f):
+    @functools.wraps(f)
+    def w(*a, **k): return f(*a, **k)
+    return w
+@deco
+def wrapped(x: int) -> int: return 0
+@deco
+async def wrapped_async_unann(x: int): return 0
+def two(a: int, x: int) -> int: return 0
+partial_obj = functools.partial(two, 1)
+"""
+RETURN_KIND_NAMES = ["plain", "plain_bool", "plain_str", "async_ann", "async_unann", "gen_ann", "agen_ann", "K", "callable_instance",
+                     "bound_method", "static_method", "class_method", "bound_async_unann", "wrapped", "wrapped_async_unann", "partial_obj"]
+# kinds whose result type is Any by design when unannotated / not modelled: membership not demanded
+# partial_obj: functools.partial is not modelled (typeshed __call__ -> Any);  wrapped*: the wrapper `def w(*a, **k)`
+# is itself unannotated (pyanalyze does not follow __wrapped__);  callable_instance: an instance of a class created by
+# exec() falls back to ANY_SIGNATURE here (observed; the module route is not exercised for it)
+RETURN_ANY_BY_DESIGN = {"partial_obj", "wrapped", "wrapped_async_unann", "callable_instance"}
+
+
+def return_kind_stream():
+    """-> (failures, stats).  For every callable kind g and expected Callable[[int], R]:
+    accepted  =>  isinstance(g(1), R)  (a coroutine / generator object is what g(1) IS)."""
+    import inspect
+    from typing import Callable
+
+    from pyanalyze.annotations import type_from_runtime
+    from pyanalyze.value import CanAssignError
+
+    I = B._impl()
+    ns = {}
+    exec(RETURN_KINDS_SRC, ns)
+    bad = []
+    stats = {"checked": 0, "accepted": 0, "per_kind_accepted": {}}
+    for name in RETURN_KIND_NAMES:
+        obj = ns[name]
+        for R in (int, str, object, bool):
+            cv = type_from_runtime(Callable[[int], R])
+            acc = not isinstance(cv.can_assign(I["V"].KnownValue(obj), I["ck"]), CanAssignError)
+            stats["checked"] += 1
+            if not acc:
+                continue
+            stats["accepted"] += 1
+            stats["per_kind_accepted"].setdefault(name, []).append(R.__name__)
+            try:
+                res = obj(1)
+            except TypeError as ex:
+                bad.append({"callable": name, "expected": f"Callable[[int], {R.__name__}]", "observed": "accepted", "problem": f"calling it with one int raises {ex!r}"})
+                continue
+            ok = isinstance(res, R)
+            if inspect.iscoroutine(res):
+                res.close()
+            if not ok and name not in RETURN_ANY_BY_DESIGN:
+                bad.append({"callable": name, "expected": f"Callable[[int], {R.__name__}]", "observed": "accepted", "problem": f"the call returns a {type(res).__name__}, not a member of {R.__name__}"})
+    return bad, stats
+
+
 def enc_pair(e, a):
     return "C" + B.enc_sig(e) + "|" + B.enc_sig(a)
 
@@ -576,7 +662,9 @@ def run(tier: str, replay: str | None = None):
     if replay:
         r = json.loads(Path(replay).read_text())
         c = r["input"]
-        if "hierarchy" in c:
+        if "callable" in c:
+            pass  # the return-kind stream is fixed and runs on every invocation
+        elif "hierarchy" in c:
             replay_hier = [(c["hierarchy"], c["bases"], c["a"])]
         elif "te" in c:
             typed.append((c["e"], c["te"], c["re"], c["a"], c["ta"], c["ra"]))
@@ -842,6 +930,11 @@ def run(tier: str, replay: str | None = None):
                             failing.append((payload, f"override accepted (no incompatible_override); call with {bad[0]} positionals and keywords {bad[1]}", f"the base definition def m({B.header(e)}) binds the call, the override raises TypeError"))
                         break
 
+    # ---- return covariance through every kind of callable (the oracle calls the accepted object)
+    rk_bad, rk_stats = return_kind_stream()
+    for b in rk_bad:
+        failing.append(({"callable": b["callable"], "expected_type": b["expected"], "text": f"{b['callable']} where {b['expected']} is expected"}, b["observed"], b["problem"]))
+
     # ---- verdicts
     for payload, obs, exp in failing[:10]:
         rep.violation({"kind": "failing-input", "input": payload, "observed": obs, "expected": exp, "how_to_run": "./check C07 --replay <this file>", "oracle": "CPython executes every call shape (<=3 positionals, <=3 keywords) against both functions"})
@@ -901,6 +994,8 @@ def run(tier: str, replay: str | None = None):
         callable_annotation_modules=n_ca_e2e,
         callable_annotation_module_mismatches=len(ca_e2e_bad),
         callable_annotation_other_codes=ca_other,
+        return_kind_checks=rk_stats["checked"],
+        return_kind_accepted=rk_stats["per_kind_accepted"],
         hierarchies_checked=n_hier,
         hierarchy_shapes=hier_hist,
         hierarchy_mismatches=len(hier_corr),
